@@ -26,6 +26,15 @@ class RawTaskType:
     def load_from_cond_file(self, **kwargs) -> Dict:
         args = {**self._defaults, **kwargs}
         self._validator(args)
+        # COND files are Python programs: the caller may keep using (and
+        # changing) the lists and dicts it passed in, e.g. in a loop that
+        # defines a parameter sweep. The task is defined by their contents at
+        # the time of this call.
+        for key, value in args.items():
+            if isinstance(value, list):
+                args[key] = list(value)
+            elif isinstance(value, dict):
+                args[key] = dict(value)
         if not TaskIdentifier.is_name_valid(args["name"]):
             raise InvalidTaskName(task_name=args["name"])
         return {**args, "_full_type": self._full_type}
